@@ -544,9 +544,6 @@ Ltac each_name Hin :=
   repeat match type of Hin with _ \/ _ => destruct Hin as [Hin|Hin] end;
   [subst .. | contradiction].
 
-Lemma all_ok_kind (rs : list (res value)) vals : all_ok rs = Ok vals -> True.
-Proof. trivial. Qed.
-
 Lemma apply_func_kind nm args rs v na va t :
   func_info nm = Some (na, va, t) -> apply_func fo nm args rs = Ok v ->
   vkind v <> 2 /\ (vkind v = 1 -> t = TList).
